@@ -6,23 +6,26 @@ Local Open Scope Z_scope.
 Local Open Scope res_scope.
 Ltac Zify.zify_post_hook ::= Z.div_mod_to_equations.
 
-(* ------------------------------------------------------------------ the unguarded loops are Math.v's *)
-Lemma search_up_g_false fuel : forall mp offset ratio t,
-  search_up_g false fuel mp offset ratio t = search_up fuel mp offset ratio t.
+(* ------------------------------------------------------------------ the guarded loops are Math.v's
+   (Amm/Math.v models /repo HEAD, which contains the no-progress guard since commit 2177391) *)
+Lemma search_up_g_true fuel : forall mp offset ratio t,
+  search_up_g true fuel mp offset ratio t = search_up fuel mp offset ratio t.
 Proof.
   induction fuel as [|f IH]; intros; cbn [search_up_g search_up]; [reflexivity|].
   destruct (mp <=? offset); [reflexivity|].
-  destruct (dquo mp ratio) as [mp'|]; cbn; [apply IH|reflexivity].
+  destruct (dquo mp ratio) as [mp'|]; cbn [of_opt rbind andb]; [|reflexivity].
+  destruct (negb (mp' <? mp)); [reflexivity|apply IH].
 Qed.
-Lemma search_down_g_false fuel : forall mp offset ratio t,
-  search_down_g false fuel mp offset ratio t = search_down fuel mp offset ratio t.
+Lemma search_down_g_true fuel : forall mp offset ratio t,
+  search_down_g true fuel mp offset ratio t = search_down fuel mp offset ratio t.
 Proof.
   induction fuel as [|f IH]; intros; cbn [search_down_g search_down]; [reflexivity|].
   destruct (offset <=? mp); [reflexivity|].
-  destruct (dmul mp ratio) as [mp'|]; cbn; [apply IH|reflexivity].
+  destruct (dmul mp ratio) as [mp'|]; cbn [of_opt rbind andb]; [|reflexivity].
+  destruct (negb (mp <? mp')); [reflexivity|apply IH].
 Qed.
-Lemma multiplied_price_to_tick_g_false mp tp :
-  multiplied_price_to_tick_g false SEARCH_FUEL mp tp = multiplied_price_to_tick mp tp.
+Lemma multiplied_price_to_tick_g_true mp tp :
+  multiplied_price_to_tick_g true SEARCH_FUEL mp tp = multiplied_price_to_tick mp tp.
 Proof.
   unfold multiplied_price_to_tick_g, multiplied_price_to_tick.
   generalize SEARCH_FUEL. intros fuel.
@@ -31,7 +34,7 @@ Proof.
   destruct (lift_pow (pow (price_ratio tp) (base_offset tp))) as [pw| |]; unfold rbind; try reflexivity.
   destruct (of_opt (dmul MULT pw)) as [o| |]; try reflexivity.
   destruct (mp =? o); [reflexivity|].
-  destruct (o <? mp); [apply search_up_g_false|apply search_down_g_false].
+  destruct (o <? mp); [apply search_up_g_true|apply search_down_g_true].
 Qed.
 
 (* ------------------------------------------------------------------ one step of each search *)
@@ -378,18 +381,25 @@ Proof.
   rewrite Hq. cbn [of_opt rbind andb]. apply IH.
 Qed.
 
-(* price_ratio = 1: the upward search (Amm/Math.v's, i.e. the code as found) never ends *)
+(* price_ratio = 1: the upward search as found (no guard) never ends *)
 Theorem price_ratio_one_diverges mp offset : offset < mp -> Z.abs mp <= DEC_LIM ->
-  forall fuel t, search_up fuel mp offset P t = Err E_FUEL.
+  forall fuel t, search_up_g false fuel mp offset P t = Err E_FUEL.
 Proof.
-  intros Hgt Hr fuel t. rewrite <- search_up_g_false. apply search_up_stall; [apply dquo_by_one; exact Hr|exact Hgt].
+  intros Hgt Hr fuel t. apply search_up_stall; [apply dquo_by_one; exact Hr|exact Hgt].
+Qed.
+(* ... with the guard it ends at the first step *)
+Theorem price_ratio_one_guarded mp offset fuel t : offset < mp -> Z.abs mp <= DEC_LIM ->
+  search_up_g true (S fuel) mp offset P t = Err E_PRICE_OUT_OF_BOUND.
+Proof.
+  intros Hgt Hr. cbn [search_up_g]. destruct (Z.leb_spec mp offset); [lia|].
+  rewrite dquo_by_one by exact Hr. cbn [of_opt rbind andb]. rewrite Z.ltb_irrefl. reflexivity.
 Qed.
 
 (* price_ratio <= 1: the downward search never ends (the price only falls) *)
 Theorem price_ratio_le_one_diverges ratio offset : 0 < ratio <= P ->
-  forall fuel mp t, 0 <= mp < offset -> mp <= DEC_LIM -> search_down fuel mp offset ratio t = Err E_FUEL.
+  forall fuel mp t, 0 <= mp < offset -> mp <= DEC_LIM -> search_down_g false fuel mp offset ratio t = Err E_FUEL.
 Proof.
-  intros Hr fuel. induction fuel as [|f IH]; intros mp t Hmp Hlim; cbn [search_down];
+  intros Hr fuel. induction fuel as [|f IH]; intros mp t Hmp Hlim; cbn [search_down_g];
     destruct (Z.leb_spec offset mp); try lia; [reflexivity|].
   assert (HP : 0 < P) by reflexivity.
   pose proof (chop_round_bracket (mp * ratio)) as Hb.
@@ -397,7 +407,7 @@ Proof.
   assert (Hle : chop_round (mp * ratio) <= mp).
   { assert (chop_round (mp * ratio) * P <= mp * P + HALF) by nia. unfold P, HALF in *. lia. }
   unfold dmul, chk, Dec.in_range. destruct (Z.leb_spec (Z.abs (chop_round (mp * ratio))) DEC_LIM); [|lia].
-  cbn [of_opt rbind]. apply IH; lia.
+  cbn [of_opt rbind andb]. apply IH; lia.
 Qed.
 
 (* the default ratio 1.0001, a price of 1024 * 10^-18 (first position: 10^33 base units against
@@ -406,10 +416,13 @@ Definition RATIO_DEFAULT : Z := 1000100000000000000.
 Definition tp_default : tick_params := {| price_ratio := RATIO_DEFAULT; base_offset := 0 |}.
 Theorem tiny_price_default_ratio_diverges :
   first_position_search 1 (10 ^ 33) tp_default = Some (false, 1024, MULT) /\
-  forall fuel t, search_down fuel 1024 MULT RATIO_DEFAULT t = Err E_FUEL.
+  (forall fuel t, search_down_g false fuel 1024 MULT RATIO_DEFAULT t = Err E_FUEL) /\
+  (forall fuel t, search_down (S fuel) 1024 MULT RATIO_DEFAULT t = Err E_PRICE_OUT_OF_BOUND).
 Proof.
-  split; [vm_compute; reflexivity|]. intros fuel t. rewrite <- search_down_g_false.
-  apply search_down_stall; [vm_compute; reflexivity|reflexivity].
+  split; [vm_compute; reflexivity|]. split.
+  - intros fuel t. apply search_down_stall; [vm_compute; reflexivity|reflexivity].
+  - intros fuel t. cbn [search_down]. change (MULT <=? 1024) with false. cbv iota.
+    change (dmul 1024 RATIO_DEFAULT) with (Some 1024). reflexivity.
 Qed.
 
 (* ------------------------------------------------------------------ a lower bound (ratio barely above one) *)
@@ -609,4 +622,29 @@ Proof.
     - destruct (dadd (- base) P) as [dd|] eqn:Ed; cbn [obind] in Ea; [|discriminate].
       injection Ea as <- _. apply dadd_some in Ed. unfold P, HALF in *. lia. }
   apply pow_approx_loop_fuel; [lia|exact He|exact Hx|discriminate|vm_compute; reflexivity].
+Qed.
+
+(* price_ratio = 2 with base offset -0.5 (both accepted by the first pool validation, commit
+   117698b): PowApprox sums the binomial series of 2^(-1/2) at x = 1, whose terms decay like
+   1/sqrt(n): after 4000 passes the term is still above 10^-8.  Reproduced on the real
+   application: the first MsgCreatePosition of such a pool does not return (watchdog).
+   With |ratio - 1| <= 1/2 ([pool_params_ok]) the loop ends within 46 passes
+   ([pow_approx_terminates]). *)
+Theorem pow_approx_ratio_two_does_not_converge :
+  pool_params_ok_lower 10000000000000000 (2 * P) (- HALF) = true /\
+  pow (2 * P) (- HALF) = None /\
+  pool_params_ok 10000000000000000 (2 * P) (- HALF) = false.
+Proof. repeat split; vm_compute; reflexivity. Qed.
+
+(* parameters accepted by [pool_params_ok]: the power ratio^offset is computed without running
+   out of fuel (its PowApprox part by [pow_approx_terminates]) *)
+Theorem validated_pow_converges fee ratio offs :
+  pool_params_ok fee ratio offs = true -> pow_approx ratio (offs - dtrunc_dec offs) <> None.
+Proof.
+  intros H. unfold pool_params_ok, pool_params_ok_lower, MIN_PRICE_RATIO, MAX_PRICE_RATIO in H.
+  apply pow_approx_terminates.
+  - unfold P, HALF. lia.
+  - unfold dtrunc_dec. assert (HP : 0 < P) by reflexivity.
+    pose proof (Z.quot_rem' offs P). pose proof (Z.rem_bound_abs offs P ltac:(lia)).
+    replace (offs - Z.quot offs P * P) with (Z.rem offs P) by lia. lia.
 Qed.
